@@ -114,6 +114,10 @@ pub enum E {
     TupleField(Box<E>, usize, usize),
     Field(Box<E>, String),
     Ctor(String, String, Vec<E>),
+    /// struct literal of a whitelisted struct: (field, value) in SOURCE order (evaluation order)
+    StructLit(String, Vec<(String, E)>),
+    /// functional update `{ base with field := value }` (from `self.field = e` under `&mut self`)
+    StructUpd(Box<E>, String, Box<E>),
     SomeE(Box<E>),
     NoneE,
     /// op, lhs, rhs, type of lhs, type of rhs
@@ -188,6 +192,9 @@ pub struct FnSig {
     /// lean binder name, type (receiver first, named `self`)
     pub params: Vec<(String, Ty)>,
     pub ret: Ty,
+    /// the method takes `&mut self` on a whitelisted struct: translated as a state-passing
+    /// function returning `(result, self')`
+    pub mut_self: bool,
 }
 
 #[derive(Debug, Clone)]
